@@ -23,4 +23,16 @@ CHECKS = {
         "assumptions": ["encoding/json.Valid (go1.23.5) and the harness recogniser agree on every enumerated input (checked at run time)",
                         "the harness process survives: a child death is attributed through the journal"],
     },
+    "C01": {
+        "pkg": "c01", "variants": [PLAIN],
+        "rule": ("rapid draws a type from the grammar (reflect realisation), a boundary-biased value recipe, how the value is reached "
+                 "(direct, &v, inside []interface{} / interface field / map[string]interface{}), and the entry/settings (Marshal, MarshalIndent, "
+                 "Encoder with escapeHTML on/off and indent, DisableHTMLEscape); oracle encoding/json under the same settings: error iff error, "
+                 "token sequences equal modulo the listed spellings. Non-trivial = type has >= 3 nodes incl. a composite and the std output is "
+                 "longer than 4 bytes; distinct by hash(type, std output, reach, settings)."),
+        "technique": "property-based differential testing against encoding/json over generated types x values x settings (rapid, shrinking)",
+        "level_text": "Randomised differential exploration of types x values x reach x settings against encoding/json; exploration level (sampling, no exhaustiveness claim).",
+        "level_note": "Oracle: encoding/json of the same toolchain (go1.23.5); both libraries receive the same interface value. reflect-built types only exercise the fallback-map cache path; recursive and freshly named method-bearing types come from the generated-source corpus (C08/C14).",
+        "assumptions": ["encoding/json go1.23.5 is the reference behaviour", "canonical token comparison tolerates only \\u0008/\\b, \\u000c/\\f and exponent zero padding"],
+    },
 }
